@@ -586,8 +586,12 @@ class RTCRtpReceiver:
                     )
 
                 if self.__rtcp_ssrc is not None and reports:
-                    packet = RtcpRrPacket(ssrc=self.__rtcp_ssrc, reports=reports)
-                    await self._send_rtcp(packet)
+                    # the report count of an RTCP RR is a 5-bit field
+                    for i in range(0, len(reports), 31):
+                        packet = RtcpRrPacket(
+                            ssrc=self.__rtcp_ssrc, reports=reports[i : i + 31]
+                        )
+                        await self._send_rtcp(packet)
 
         except asyncio.CancelledError:
             pass
